@@ -107,6 +107,7 @@ func (v *SliceSchema) validate(ctx *p.SchemaCtx) {
 		subCtx.ValPtr = item
 		subCtx.Path.Push(&k)
 		subCtx.Exit = false
+		subCtx.CanCatch = false
 		p.VerifEmit("elem", k, "", nil)
 		v.schema.validate(subCtx)
 		subCtx.Path.Pop()
@@ -202,6 +203,7 @@ func (v *SliceSchema) process(ctx *p.SchemaCtx) {
 		subCtx.ValPtr = ptr
 		subCtx.Path.Push(&k)
 		subCtx.Exit = false
+		subCtx.CanCatch = false
 		p.VerifEmit("elem", k, "", nil)
 		v.schema.process(subCtx)
 		subCtx.Path.Pop()
